@@ -339,6 +339,10 @@ def r6_pairwise_matrix_and_inputs(ctx):
 from ..through_time import make_rule as _mk_tt
 _through_time = _mk_tt("C08")
 
+def _synchronised_streams(ctx):
+    from .c12 import r2_every_contig_gets_a_buffer
+    r2_every_contig_gets_a_buffer(ctx)   # Jaccard / Forbes sum per-contig tables over the synchronised streams: every contig must get a buffer
+
 RULES = [
     ("C08-R1", r1_merge),
     ("C08-R2", r2_sort_keys),
@@ -347,4 +351,5 @@ RULES = [
     ("C08-R5", r5_similarity),
     ("C08-R6", r6_pairwise_matrix_and_inputs),
     ("C08-T1", _through_time),
+    ("C08-R7", _synchronised_streams),
 ]
